@@ -595,6 +595,16 @@ class ttensor:
         elif not isinstance(samples, Sequence):
             samples = [samples]
 
+        if (
+            np.any(np.asarray(modes) < 0)
+            or np.any(np.asarray(modes) >= self.ndims)
+            or np.unique(modes).size != len(modes)
+        ):
+            raise ValueError(
+                "Modes must be distinct modes of the ttensor (in range(ndims)) "
+                f"but got: {modes}"
+            )
+
         unequal_lengths = len(samples) > 0 and len(samples) != len(modes)
         if unequal_lengths:
             raise ValueError(
